@@ -207,7 +207,9 @@ def gen_hdc_cases(rng, n, thorough):
             deltas.append((hi - lo) / (cells * float(rng.uniform(0.8, 1.25))))
         form = int(rng.integers(0, 3))
         if form == 0:
-            deltas = float(deltas[0])  # scalar delta for all dimensions
+            # scalar delta for all dimensions: the coarsest of the per-dimension steps, so that no axis gets
+            # more than `cells` cells (ranges of heavy-tailed doubles differ by orders of magnitude)
+            deltas = float(max(deltas))
         yield {"part": "C", "mode": "table" if table else "doubles", "alpha": alpha, "model": m.describe(),
                "limits": limits, "deltas": deltas}
 
